@@ -4,24 +4,28 @@
 // case  (mask x<p1> x<p2> (op ...))   see coq/Run/C23.v for the op/observation syntax.
 // mask  bit0 memorydb (always run), bit1 pebble v2, bit2 pebble v1, bit3 leveldb.
 // Obs    = transcript of every op on memorydb (views: store, table p1, table p2, table(table p1) p2)
-// Oracle = every selected backend produced the identical transcript, and on every backend
-//          each table view's full iteration equals the store's dump restricted to the
-//          view's prefix with the prefix stripped.
+// Oracle = every selected backend produced the identical transcript; the memorydb transcript
+//
+//	equals an independent Go reference of the demanded semantics (plain map; a view =
+//	the store restricted to the prefix, stripped; Replay never fails); and on every backend
+//	each table view's full iteration equals the store's dump restricted to the
+//	view's prefix with the prefix stripped.
 package main
 
 import (
 	"bytes"
 	"fmt"
 	"os"
+	"sort"
 	"strings"
 
+	. "gethverif/harness/hxlib"
 	"github.com/ethereum/go-ethereum/core/rawdb"
 	"github.com/ethereum/go-ethereum/ethdb"
 	"github.com/ethereum/go-ethereum/ethdb/leveldb"
 	"github.com/ethereum/go-ethereum/ethdb/memorydb"
 	"github.com/ethereum/go-ethereum/ethdb/pebble"
 	"github.com/ethereum/go-ethereum/log"
-	. "gethverif/harness/hxlib"
 )
 
 const (
@@ -305,7 +309,7 @@ func run(c Sx) Result {
 		case 0:
 			if len(l) == 4 {
 				k := append(append([]byte{}, viewPrefix(pc, small(l[1], 4))...), byts(l[2])...)
-				hasBigKey = hasBigKey || bytes.Compare(k, ethdb.MaximumKey) >= 0
+				hasBigKey = hasBigKey || bytes.Contains(k, ethdb.MaximumKey)
 				hasEmptyKey = hasEmptyKey || len(k) == 0
 				hasEmptyVal = hasEmptyVal || len(byts(l[3])) == 0
 			}
@@ -323,7 +327,7 @@ func run(c Sx) Result {
 				bi := small(l[1], 1<<20)
 				if bi < len(bviews) {
 					k := append(append([]byte{}, viewPrefix(pc, bviews[bi])...), byts(l[2])...)
-					hasBigKey = hasBigKey || bytes.Compare(k, ethdb.MaximumKey) >= 0
+					hasBigKey = hasBigKey || bytes.Contains(k, ethdb.MaximumKey)
 					hasEmptyKey = hasEmptyKey || len(k) == 0
 				}
 				hasEmptyVal = hasEmptyVal || len(byts(l[3])) == 0
@@ -373,6 +377,16 @@ func run(c Sx) Result {
 		}
 	}
 	res.Obs = SL(ref)
+	if !hasBigKey && ref != nil {
+		want := refRun(pc)
+		for i := range ref {
+			if String(ref[i]) != want[i] {
+				fails = append(fails, fmt.Sprintf("C23-SPEC memorydb/table deviates from the reference semantics at op#%d %s: got %s want %s",
+					i, String(pc.ops[i]), String(ref[i]), want[i]))
+				break
+			}
+		}
+	}
 	if len(diverging) > 0 {
 		onlyLevel, onlyPebble := true, true
 		for _, d := range diverging {
@@ -446,6 +460,151 @@ func dedup(in []string) []string {
 		}
 	}
 	return out
+}
+
+// ---------------- independent reference semantics (direct oracle) ----------------
+// A plain Go map executed with the semantics the property demands of every backend and
+// of every table view (a view with prefix p is the store restricted to keys with prefix
+// p, prefix stripped).  Written independently of the Coq model; used only when all keys
+// are below ethdb.MaximumKey (outside that domain see open finding C23-F4).
+
+type refOp struct {
+	kind       int // 0 put, 1 delete, 2 range
+	k, v       []byte
+	s, e       []byte
+	sNil, eNil bool
+}
+
+type refBatch struct {
+	view int
+	ops  []refOp
+}
+
+type refIter struct {
+	items [][2][]byte
+	pos   int
+}
+
+func refApply(db map[string][]byte, p []byte, o refOp) {
+	switch o.kind {
+	case 0:
+		db[string(p)+string(o.k)] = o.v
+	case 1:
+		delete(db, string(p)+string(o.k))
+	default:
+		for key := range db {
+			if !bytes.HasPrefix([]byte(key), p) {
+				continue
+			}
+			k := []byte(key)[len(p):]
+			if !o.sNil && bytes.Compare(k, o.s) < 0 {
+				continue
+			}
+			if !o.eNil && bytes.Compare(k, o.e) >= 0 {
+				continue
+			}
+			delete(db, key)
+		}
+	}
+}
+
+func refItems(db map[string][]byte, p, pre, st []byte) [][2][]byte {
+	var keys []string
+	lo := string(pre) + string(st)
+	for key := range db {
+		if !bytes.HasPrefix([]byte(key), p) {
+			continue
+		}
+		k := key[len(p):]
+		if strings.HasPrefix(k, string(pre)) && k >= lo {
+			keys = append(keys, k)
+		}
+	}
+	sort.Strings(keys)
+	var out [][2][]byte
+	for _, k := range keys {
+		out = append(out, [2][]byte{[]byte(k), db[string(p)+k]})
+	}
+	return out
+}
+
+func refRun(pc parsed) []string {
+	db := map[string][]byte{}
+	var batches []*refBatch
+	var iters []*refIter
+	var tr []string
+	rng := func(l SL) refOp {
+		s, e := optBytes(l[2]), optBytes(l[3])
+		return refOp{kind: 2, s: s, e: e, sNil: s == nil, eNil: e == nil}
+	}
+	for _, o := range pc.ops {
+		l := o.(SL)
+		kind := small(l[0], 15)
+		ob := "()"
+		switch kind {
+		case 0:
+			refApply(db, viewPrefix(pc, small(l[1], 4)), refOp{kind: 0, k: byts(l[2]), v: byts(l[3])})
+		case 1:
+			refApply(db, viewPrefix(pc, small(l[1], 4)), refOp{kind: 1, k: byts(l[2])})
+		case 2:
+			refApply(db, viewPrefix(pc, small(l[1], 4)), rng(l))
+		case 3:
+			_, ok := db[string(viewPrefix(pc, small(l[1], 4)))+string(byts(l[2]))]
+			ob = String(Bool(ok))
+		case 4:
+			if v, ok := db[string(viewPrefix(pc, small(l[1], 4)))+string(byts(l[2]))]; ok {
+				ob = String(L(B(v)))
+			}
+		case 5:
+			batches = append(batches, &refBatch{view: small(l[1], 4)})
+		case 6, 7, 8, 9, 10, 11:
+			bi := small(l[1], 1<<20)
+			if bi >= len(batches) {
+				ob = String(obBadHandle)
+				break
+			}
+			b := batches[bi]
+			switch kind {
+			case 6:
+				b.ops = append(b.ops, refOp{kind: 0, k: byts(l[2]), v: byts(l[3])})
+			case 7:
+				b.ops = append(b.ops, refOp{kind: 1, k: byts(l[2])})
+			case 8:
+				b.ops = append(b.ops, rng(l))
+			case 9:
+				for _, x := range b.ops {
+					refApply(db, viewPrefix(pc, b.view), x)
+				}
+			case 10:
+				b.ops = nil
+			default:
+				for _, x := range b.ops {
+					refApply(db, viewPrefix(pc, small(l[2], 4)), x)
+				}
+			}
+		case 12:
+			iters = append(iters, &refIter{items: refItems(db, viewPrefix(pc, small(l[1], 4)), byts(l[2]), byts(l[3]))})
+		case 13:
+			ii := small(l[1], 1<<20)
+			if ii >= len(iters) {
+				ob = String(obBadHandle)
+				break
+			}
+			it := iters[ii]
+			if it.pos < len(it.items) {
+				ob = String(L(B(it.items[it.pos][0]), B(it.items[it.pos][1])))
+				it.pos++
+			}
+		default:
+			var out []Sx
+			for _, kx := range refItems(db, nil, nil, nil) {
+				out = append(out, L(B(kx[0]), B(kx[1])))
+			}
+			ob = String(SL(out))
+		}
+		tr = append(tr, ob)
+	}
+	return tr
 }
 
 // ---------------- generator ----------------
